@@ -246,6 +246,9 @@ def run(ctx, prog, S, M, explicit):
             fresh = _fresh_context(prog, M, T, f, fc, call, S)
             if fresh is not None:
                 okf, why = fresh
+                if okf == "unknown":
+                    ctx.error(skey, why)
+                    continue
                 if okf:
                     ctx.ok("R10.raw", skey, sample={"site": where, "op": meth, "parent": parent_tags,
                                                     "child": child_tags, "fresh_receiver": why})
@@ -425,6 +428,8 @@ def _fresh_context(prog, M, T, f, fc, call, S):
         if isinstance(n, ast.Assign) and len(n.targets) == 1 and isinstance(n.targets[0], ast.Name):
             cnt_[n.targets[0].id] = cnt_.get(n.targets[0].id, 0) + 1
     env_ = {}
+    if f.cls is not None and f.kind != "staticmethod" and f.params:
+        env_[f.params[0]] = ("self", f.cls)   # `cls._tmpl(...)` / `self._tmpl()` resolve on the class
     for n in sorted((x for x in walk_own(f.node) if isinstance(x, ast.Assign) and len(x.targets) == 1 and isinstance(x.targets[0], ast.Name)
                      and cnt_[x.targets[0].id] == 1 and x is not assigns[0] and x.lineno < assigns[0].lineno), key=lambda x: x.lineno):
         if isinstance(n.value, (ast.JoinedStr, ast.Constant, ast.BinOp)) or (isinstance(n.value, ast.Call) and isinstance(n.value.func, ast.Attribute)
@@ -445,10 +450,11 @@ def _fresh_context(prog, M, T, f, fc, call, S):
             from checks.c10_sites import elem_classes, tags_of_classes  # noqa: F401
 
             return _decide_fresh(prog, M, S, tag, [], call, T, fc, "OxmlElement(%r) has no children" % tag)
-    if tmpl is None:
-        return None
-    if ev.unknown:
-        return None
+    made_here = any(isinstance(x, ast.Call) and (dotted(x.func) or "").split(".")[-1] in ("parse_xml", "parse_from_template") for x in ast.walk(val))
+    if tmpl is None or ev.unknown:
+        # the receiver is parsed from a template in this function, but the template's text is not evaluated: what children it has
+        # at this point is not known (an analysis gap: the site is neither cleared nor reported)
+        return ("unknown", "the template `%s` is parsed from does not evaluate" % recv.id) if made_here else None
     sk = skeleton(tmpl, prog.nsmap)
     if len(sk.roots) != 1:
         return None
